@@ -52,6 +52,8 @@ func runC16(c *core.Ctx) {
 	c16Shape(c, rrc)
 	c16Receiver(c, rrc)
 	c16CancelOwnership(c)
+	cancelBeforeReturnNotForReaders(c, "C16.R6")
+	readerCloseAlwaysCancels(c, "C16.R4")
 	c16Both(c)
 }
 
